@@ -42,6 +42,8 @@ Section invr.
   Notation dispatch := (dispatch fingerprint inames hc_valid steps).
   Notation InvR := (InvR fingerprint inames hc_valid).
 
+  Definition hc_ok_cluster (c : cluster) : Prop := forall v, c_hc c = Some v -> hc_valid v = true.
+
   Lemma InvR_empty : InvR empty_state.
   Proof.
     split; [split|split; [|split]]; cbn; intros; try (destruct tls); try (destruct udp); cbn in *;
@@ -71,7 +73,7 @@ Section invr.
   Proof. intros ([Hhc Hfk] & Hb & Ht & Hc) Hm. split; [split|split; [|split]]; assumption. Qed.
 
   Lemma InvR_set_t udp s m :
-    InvR s -> (forall c l, m !! c = Some l -> NoDup l) -> InvR (set_t udp s m).
+    InvR s -> (forall c l, m !! c = Some l -> NoDup (t_addr <$> l)) -> InvR (set_t udp s m).
   Proof.
     intros ([Hhc Hfk] & Hb & Ht & Hc) Hm. split; [split|split; [|split]].
     - destruct udp; exact Hhc.
@@ -107,4 +109,82 @@ Section invr.
       inversion Ex as [[E1 E2]]. rewrite <- E1, <- E2, !N.eqb_refl in Hf. discriminate.
     - cbn. apply NoDup_singleton.
   Qed.
+
+  Ltac look_ins H := 
+    match type of H with
+    | <[?i:=_]> _ !! ?j = Some _ => destruct (decide (j = i)) as [->|]; [rewrite lookup_insert in H; inversion H; subst; clear H|rewrite lookup_insert_ne in H by congruence]
+    | delete ?i _ !! ?j = Some _ => destruct (decide (j = i)) as [->|]; [rewrite lookup_delete in H; discriminate|rewrite lookup_delete_ne in H by congruence]
+    end.
+
+  Theorem InvR_dispatch s r : InvR s -> InvR (fst (dispatch s r)).
+  Proof.
+    intros HI. pose proof HI as ([Hhc Hfk] & Hb & Ht & Hc).
+    destruct r; cbn [dispatch].
+    - unfold add_cluster.
+      assert (Hins : hc_ok_cluster c -> InvR (set_clusters s (<[id:=c]> (clusters s)))).
+      { intros Hok. apply InvR_set_clusters; [exact HI|]. intros i c0 v H. look_ins H; [intros E; apply (Hok v E)|apply (Hhc i c0 v H)]. }
+      destruct (c_hc c) eqn:E; [destruct (hc_valid n) eqn:Ev|]; cbn [fst]; auto; apply Hins; intros v Ev'; congruence.
+    - unfold remove_cluster. destruct (clusters s !! id); cbn [fst]; auto.
+      apply InvR_set_clusters; [exact HI|]. intros i c0 v H. look_ins H. apply (Hhc i c0 v H).
+    - unfold set_health_check. destruct (hc_valid hc) eqn:Ev; [destruct (clusters s !! id)|]; cbn [fst]; auto.
+      apply InvR_set_clusters; [exact HI|]. intros i c0 v H. look_ins H; [cbn; intros E; inversion E; subst; exact Ev|apply (Hhc i c0 v H)].
+    - unfold remove_health_check. destruct (clusters s !! id); cbn [fst]; auto.
+      apply InvR_set_clusters; [exact HI|]. intros i c0 v H. look_ins H; [cbn; discriminate|apply (Hhc i c0 v H)].
+    - unfold add_listener. destruct (get_l k s !! a); cbn [fst]; auto. apply InvR_set_l; exact HI.
+    - unfold remove_listener. destruct (kind_of proxy); [destruct (get_l l s !! a)|]; cbn [fst]; auto. apply InvR_set_l; exact HI.
+    - unfold set_active. destruct (kind_of proxy); [destruct (get_l l s !! a)|]; cbn [fst]; auto. apply InvR_set_l; exact HI.
+    - unfold set_active. destruct (kind_of proxy); [destruct (get_l l s !! a)|]; cbn [fst]; auto. apply InvR_set_l; exact HI.
+    - unfold update_listener.
+      destruct (run_steps (steps k) p (option_map l_fields (get_l k s !! a)) None) as [cur u].
+      destruct (get_l k s !! a), cur; cbn [fst]; auto. apply InvR_set_l; exact HI.
+    - unfold add_front. destruct (get_f tls s !! front_key f); [|destruct (f_pos f <? 3) eqn:Ep]; cbn [fst]; auto.
+      apply InvR_set_f; [exact HI|]. intros kk ff H. look_ins H; [split; [reflexivity|exact Ep]|apply (Hfk tls kk ff H)].
+    - unfold remove_front. destruct (get_f tls s !! front_key f); cbn [fst]; auto.
+      apply InvR_set_f; [exact HI|]. intros kk ff H. look_ins H. apply (Hfk tls kk ff H).
+    - unfold add_tfront. destruct (bool_decide (t_addr t ∈ (t_addr <$> default [] (get_t udp s !! c)))) eqn:Hin; cbn [fst];
+        (apply InvR_set_t; [exact HI|]); intros c0 l H; look_ins H; try (apply (Ht udp c0 l H)).
+      + destruct (get_t udp s !! c) eqn:E; cbn; [apply (Ht udp c _ E)|constructor].
+      + apply bool_decide_eq_false in Hin. rewrite fmap_app. apply NoDup_app. split; [|split].
+        * destruct (get_t udp s !! c) eqn:E; cbn; [apply (Ht udp c _ E)|constructor].
+        * intros x Hx Hx'. cbn in Hx'. apply elem_of_list_singleton in Hx'. subst x. apply Hin. exact Hx.
+        * cbn. apply NoDup_singleton.
+    - unfold remove_tfront. destruct (get_t udp s !! c) eqn:E; cbn [fst]; auto.
+      assert (HI' : InvR (set_t udp s (<[c:=filter (fun x : tfront => t_addr x <> t_addr t) l]> (get_t udp s)))).
+      { apply InvR_set_t; [exact HI|]. intros c0 l0 H. look_ins H; [apply NoDup_fmap_filter; apply (Ht udp c _ E)|apply (Ht udp c0 l0 H)]. }
+      destruct (_ =? _)%nat; cbn [fst]; exact HI'.
+    - unfold add_backend. cbn [fst]. apply InvR_set_backends; [exact HI|]. intros c0 l H. look_ins H; [|apply (Hb c0 l H)].
+      split; [apply isort_idem, bk_le_total|].
+      rewrite (isort_perm bk_le). apply NoDup_keys_upsert.
+      destruct (backends s !! c) eqn:E; cbn; [apply (Hb c _ E)|constructor].
+    - unfold remove_backend. destruct (backends s !! c) eqn:E; cbn [fst]; auto.
+      assert (HI' : InvR (set_backends s (<[c:=isort bk_le (List.filter (fun x => negb (same_backend id a x)) l)]> (backends s)))).
+      { apply InvR_set_backends; [exact HI|]. intros c0 l0 H. look_ins H; [|apply (Hb c0 l0 H)].
+        split; [apply isort_idem, bk_le_total|]. rewrite (isort_perm bk_le), lfilter_stdpp.
+        apply NoDup_fmap_filter. apply (Hb c l E). }
+      destruct (_ =? _)%nat; cbn [fst]; exact HI'.
+    - unfold add_certificate. destruct (fingerprint (k_pem k)) eqn:Ef; [|auto].
+      destruct (resolve inames k) eqn:Er; [|auto].
+      assert (Hbucket : forall fp k0, default ∅ (certs s !! a) !! fp = Some k0 ->
+                                      fingerprint (k_pem k0) = Some fp /\ resolve inames k0 = Some (k_names k0)).
+      { intros fp k0. destruct (certs s !! a) eqn:E; cbn; [apply (Hc a _ fp k0 E)|rewrite lookup_empty; discriminate]. }
+      destruct (default ∅ (certs s !! a) !! n) eqn:En; cbn [fst]; (apply InvR_set_certs; [exact HI|]);
+        intros a0 b fp k0 H Hk; look_ins H; try (apply (Hc a0 b fp k0 H Hk)).
+      + apply Hbucket. exact Hk.
+      + look_ins Hk; [cbn; split; [exact Ef|apply resolve_stored; exact Er]|apply Hbucket; exact Hk].
+    - unfold remove_certificate. destruct fp; [|auto]. destruct (certs s !! a) eqn:E; cbn [fst]; auto.
+      apply InvR_set_certs; [exact HI|]. intros a0 b fp k0 H Hk. look_ins H; [|apply (Hc a0 b fp k0 H Hk)].
+      look_ins Hk. apply (Hc a _ fp k0 E Hk).
+    - unfold replace_certificate. destruct old; [|auto].
+      destruct (fingerprint (k_pem k)) eqn:Ef; [|auto]. destruct (resolve inames k) eqn:Er; [|auto].
+      destruct (certs s !! a) eqn:E; [|auto]. cbn [certs set_certs]. rewrite lookup_insert. rewrite lookup_insert. cbn [fst].
+      apply InvR_set_certs; [exact HI|]. intros a0 b fp k0 H Hk. look_ins H; [|apply (Hc a0 b fp k0 H Hk)].
+      look_ins Hk; [cbn; split; [exact Ef|apply resolve_stored; exact Er]|].
+      look_ins Hk. apply (Hc a _ fp k0 E Hk).
+    - exact HI.
+    - exact HI.
+    - exact HI.
+  Qed.
+
+  Theorem reachable_InvR s : reachable fingerprint inames hc_valid steps s -> InvR s.
+  Proof. induction 1; [apply InvR_empty|apply InvR_dispatch; assumption]. Qed.
 End invr.
